@@ -486,57 +486,60 @@ impl Server {
         Ok(true)
     }
     
-    /// Wake up a specific blocked client with data
+    /// Serve the clients blocked on a key that received data: in blocking order, one element
+    /// each, for as long as the list has elements
     fn wake_client(&self, wakeup: WakeupRequest) -> Result<()> {
-        // Perform atomic pop based on the operation type
-        let value = match wakeup.op_type {
-            super::connection::BlockingOp::BLPop => self.storage.lpop(wakeup.db, &wakeup.key)?,
-            super::connection::BlockingOp::BRPop => self.storage.rpop(wakeup.db, &wakeup.key)?,
-            super::connection::BlockingOp::XReadBlock(_) => {
-                // XReadBlock not implemented yet, skip for now
-                return Ok(());
+        loop {
+            let waiter = match self.blocking_manager.first_waiter(wakeup.db, &wakeup.key) {
+                Some(waiter) => waiter,
+                None => break,
+            };
+            
+            // A waiter that is gone or no longer blocked only loses its registrations;
+            // nothing is popped for it
+            let still_blocked = self.connections.with_connection(waiter.conn_id, |conn| {
+                matches!(conn.state, ConnectionState::Blocked(_))
+            }).unwrap_or(false);
+            if !still_blocked {
+                self.blocking_manager.unregister_client(wakeup.db, waiter.conn_id)?;
+                continue;
             }
-        };
-        
-        #[cfg(ferrous_verif)]
-        crate::verif::log("wake", wakeup.conn_id, vec![
-            RespFrame::from_bytes(wakeup.key.clone()),
-            match &value { Some(v) => RespFrame::from_bytes(v.clone()), None => RespFrame::null_bulk() },
-        ], format!("db={}", wakeup.db));
-        
-        // Critical fix: Only proceed if we actually got data
-        // This prevents race conditions when multiple clients wake up simultaneously
-        if let Some(popped_value) = value {
-            // Try to update connection state - use try_with_connection to avoid deadlock
-            if let Some(result) = self.connections.with_connection(wakeup.conn_id, |conn| -> Result<()> {
-                // Only wake if still in blocked state
-                if let ConnectionState::Blocked(_) = conn.state {
-                    // Send the response with the atomically popped value
-                    let response = RespFrame::Array(Some(vec![
-                        RespFrame::from_bytes(wakeup.key.clone()),
-                        RespFrame::from_bytes(popped_value),
-                    ]));
-                    
-                    // Try to send response - if connection is closed, ignore error
-                    if let Err(_) = conn.send_frame(&response) {
-                        // Connection closed - this is okay, just return
-                        return Ok(());
-                    }
-                    
-                    // Return connection to authenticated state
-                    conn.state = ConnectionState::Authenticated;
-                    
-                    #[cfg(ferrous_verif)]
-                    crate::verif::log("served", wakeup.conn_id, vec![response], String::new());
-                }
-                Ok(())
-            }) {
-                // Execute the result and ignore any connection errors
-                let _ = result;
-            }
+            
+            // Pop for this waiter; an empty list means the remaining waiters keep waiting
+            let value = match waiter.op_type {
+                super::connection::BlockingOp::BLPop => self.storage.lpop(wakeup.db, &wakeup.key)?,
+                super::connection::BlockingOp::BRPop => self.storage.rpop(wakeup.db, &wakeup.key)?,
+                super::connection::BlockingOp::XReadBlock(_) => None,
+            };
+            
+            #[cfg(ferrous_verif)]
+            crate::verif::log("wake", waiter.conn_id, vec![
+                RespFrame::from_bytes(wakeup.key.clone()),
+                match &value { Some(v) => RespFrame::from_bytes(v.clone()), None => RespFrame::null_bulk() },
+            ], format!("db={}", wakeup.db));
+            
+            let popped_value = match value {
+                Some(popped_value) => popped_value,
+                None => break,
+            };
+            
+            let response = RespFrame::Array(Some(vec![
+                RespFrame::from_bytes(wakeup.key.clone()),
+                RespFrame::from_bytes(popped_value),
+            ]));
+            
+            self.connections.with_connection(waiter.conn_id, |conn| {
+                let _ = conn.send_frame(&response);
+                let _ = conn.flush();
+                conn.state = ConnectionState::Authenticated;
+            });
+            
+            #[cfg(ferrous_verif)]
+            crate::verif::log("served", waiter.conn_id, vec![response], String::new());
+            
+            // Served: the client leaves the queue of every key it was waiting on
+            self.blocking_manager.unregister_client(wakeup.db, waiter.conn_id)?;
         }
-        // If value is None (list was empty), the client should be timed out normally
-        // This is correct behavior - multiple wake-ups for same item result in only one getting data
         
         Ok(())
     }
